@@ -15,6 +15,21 @@ import (
 
 var emptyPrefix = &gofakes3.Prefix{}
 
+// validKey reports whether an object key can be stored by the file system
+// backends. They keep an object in the file of the same name below the
+// bucket's directory, so a key has to be a clean relative path: "", ".",
+// "a//b", "a/./b", "a/../b" or "../x" would name the bucket's directory
+// itself, the file of a different key, or something outside the bucket.
+func validKey(key string) bool {
+	return key != "" && key != "." && key != ".." &&
+		!strings.HasPrefix(key, "../") && !strings.HasPrefix(key, "/") &&
+		path.Clean(key) == key
+}
+
+func invalidKeyError(key string) error {
+	return gofakes3.ErrorInvalidArgument("key", key, "the file system backend cannot store a key that is not a clean relative path")
+}
+
 // removeEmptyDirs removes dir and then each of its parents for as long as they
 // are empty, stopping at (and never removing) root. Both are slash-separated
 // paths inside fs. Errors are ignored: leaving a directory behind is harmless.
